@@ -57,7 +57,7 @@ var (
 	pdErr  error
 )
 
-var recPather = ev.New("c15/pather-rounds", "rapid: a harness SCION daemon (gRPC) offers 1..10 paths (next hops = the harness time servers); a real net/scion.Pather is started on it and 2..6 rounds of the real MeasureClockOffsetSCION (1..7 clients, some in interleaved mode) each take their path list from Pather.Paths, as the service does; crypto/rand scripted. Oracle per round: the list handed out has the daemon's paths (same fingerprints, each once); min(clients, paths) next hops see requests, none from two clients. One evaluation = one round. Non-trivial: round >= 2 with more paths than clients or with an interleaved client; distinct by (paths, clients, round, words)")
+var recPather = ev.New("c15/pather-rounds", "rapid: a harness SCION daemon (gRPC) offers 1..10 paths (next hops = the harness time servers); a real net/scion.Pather is started on it (for one destination entry, or two entries naming the same AS, as the service does for two servers in one AS) and 2..6 rounds of the real MeasureClockOffsetSCION (1..7 clients, some in interleaved mode) each take their path list from Pather.Paths, as the service does; crypto/rand scripted. Oracle per round: the list handed out has the daemon's paths (same fingerprints, each once); min(clients, paths) next hops see requests, none from two clients. One evaluation = one round. Non-trivial: round >= 2 with more paths than clients or with an interleaved client; distinct by (paths, clients, round, words)")
 
 func TestPropPatherRounds(t *testing.T) {
 	pdOnce.Do(func() {
@@ -104,7 +104,12 @@ func TestPropPatherRounds(t *testing.T) {
 		pd.mu.Lock()
 		pd.localIA, pd.paths = lIA, offered
 		pd.mu.Unlock()
-		pather := scion.StartPather(context.Background(), slog.New(slog.NewTextHandler(io.Discard, nil)), pdAddr, []addr.IA{rIA})
+		// the service passes one destination entry per configured server or peer: two of them may be in the same AS
+		dsts := []addr.IA{rIA}
+		if rapid.IntRange(0, 2).Draw(t, "two-servers-in-one-as") == 0 {
+			dsts = []addr.IA{rIA, rIA}
+		}
+		pather := scion.StartPather(context.Background(), slog.New(slog.NewTextHandler(io.Discard, nil)), pdAddr, dsts)
 		var cs []*client.SCIONClient
 		for i := 0; i < m; i++ {
 			cs = append(cs, &client.SCIONClient{Log: slog.New(slog.NewTextHandler(io.Discard, nil)), InterleavedMode: rapid.IntRange(0, 2).Draw(t, "interleaved") == 0})
